@@ -29,7 +29,7 @@ KERNEL_STREAMS = ("domains", "clusters", "answer", "lconflict", "gwdup")
 # violation and every collision from admitted objects other than the ones below - still fails the run.
 # --- objects that pass admission validation (each class is decided on the shrunk mesh by a classifier below)
 KNOWN_ADMITTED = [
-    ("snapshot:addr-unique:admitted:service-port-equals-sidecar-own-listener-port",
+    ("snapshot:addr-unique:admitted:non-http-port-of-addressless-service-equals-sidecar-own-port",
      "a service without an address (ServiceEntry without addresses, headless) with a non-HTTP port equal to one of the sidecar's own listener "
      "port (15001 virtualOutbound / 15006 virtualInbound / 15008 HBONE connect_termination) yields an outbound listener on the wildcard address of that port beside it; Envoy "
      "rejects it (duplicate address). conflictWithReservedListener only guards HTTP ports and explicit wildcard binds; the repair contradicts "
@@ -45,15 +45,24 @@ KNOWN_ADMITTED = [
      "two AUTO_PASSTHROUGH servers on one port whose hosts overlap (*.example.org and api.example.org) each emit the SNI-DNAT filter chain "
      "of the same service: duplicate match, listener rejected",
      "snapshot.known-gateway-merge-auto-passthrough.ops"),
-    ("snapshot:dup-fcm:admitted:gateway-tls-server-then-plaintext-tcp-server-on-one-port",
+    ("snapshot:dup-fcm:admitted:gateway-tls-server-then-plaintext-server-on-one-port",
      "mergeGateways rule 3 (no TLS and plain TCP on one port) is only enforced when the plaintext server comes first; TLS server first, "
      "then an opaque TCP server: both kept, a wildcard-host TLS chain and the TCP chain both have the empty match",
      "snapshot.known-gateway-merge-tls-then-tcp.ops"),
-    ("snapshot:dup-fcm:admitted:gateway-plaintext-servers-one-port-other-bind-in-between",
+    ("snapshot:dup-fcm:admitted:gateway-plaintext-server-entry-overwritten-by-server-on-other-bind",
      "mergeGateways keeps plainTextServers per port only: a plaintext server on another bind overwrites the entry, a later HTTP server on the "
      "first bind is not merged into the existing one and a second HTTP filter chain with the empty match is built",
      "snapshot.known-gateway-merge-plaintext-binds.ops"),
 ]
+
+# --- the same gateway-merge defects with a validator-rejected object left in the minimal mesh (damage that element removal
+# cannot repair: a bogus protocol, an absent certificate ...): the SAME classifier decides, on the same structure and verdict;
+# the fingerprint says `invalid-input` instead of `admitted`
+KNOWN_TWINS = [("snapshot:dup-fcm:invalid-input:" + fp.rsplit(":", 1)[1],
+                "the gateway server-merge defect `%s` (see the `admitted` entry of that name), reached with a validator-rejected Gateway / "
+                "VirtualService left in the minimal mesh; decided by the same classifier (server kinds, merge order, binds, duplicated "
+                "listener and match key)" % fp.rsplit(":", 1)[1], corpus)
+               for fp, _, corpus in KNOWN_ADMITTED if fp.startswith("snapshot:dup-fcm:admitted:gateway-")]
 
 # --- objects admission validation rejects, loaded past it (the property includes them): generation copies the invalid value into
 # the Envoy configuration and Envoy rejects the response (no crash). A case is known ONLY if the shrunk mesh contains exactly one
@@ -76,6 +85,7 @@ MUTATION = {
     "se-endpoint-port-range": "ServiceEntry endpoint port map with port 0 / 70000 / unknown names",
     "gw-port-range": "Gateway server port 0 or 70000",
     "gw-no-hosts": "Gateway TLS server without hosts (its filter chain matches everything, like another wildcard-host server of the port)",
+    "gw-https-no-tls": "Gateway HTTPS server without tls settings, sharing its port with another server",
     "gw-simple-no-cert": "Gateway HTTPS server with TLS mode SIMPLE and no certificate, sharing its port with a plaintext server",
     "pa-port-range": "PeerAuthentication portLevelMtls for port 0 and 70000",
     "dr-negative-pool": "DestinationRule connectionPool / outlierDetection with negative durations and counts",
@@ -96,7 +106,11 @@ RULE = {
     "api-valid:Cluster.ConnectTimeout:_value_must_be_greater_than_Ns": "a non-positive connect_timeout",
     "api-valid:Cluster_RingHashLbConfig.MinimumRingSize:_value_must_be_less_than_or_equal_to_N": "a ring size above 8388608",
     "api-valid:RouteAction_HashPolicy_Header.HeaderName:_value_length_must_be_at_least_N_runes": "an empty hash policy header name",
-    "api-valid:FilterChainMatch.DestinationPort:_value_must_be_inside_range_[N": "a filter chain match destination port outside 1..65535",
+    "api-valid:FilterChainMatch.DestinationPort:_value_must_be_inside_range_[N_N]": "a filter chain match destination port outside 1..65535",
+    "api-valid:OutlierDetection.Interval:_value_must_be_greater_than_Ns": "a non-positive outlier detection interval",
+    "api-valid:OutlierDetection.BaseEjectionTime:_value_must_be_greater_than_Ns": "a non-positive base ejection time",
+    "api-valid:OutlierDetection.MaxEjectionPercent:_value_must_be_less_than_or_equal_to_N": "a max ejection percent above 100",
+    "api-valid:WeightedCluster.Clusters:_value_must_contain_at_least_N_item_s_": "a weighted_clusters action without clusters",
 }
 KNOWN_INVALID_PAIRS = [  # (violated clause / API rule, mutation)
     ("weights", "vs-huge-weights"),
@@ -108,6 +122,7 @@ KNOWN_INVALID_PAIRS = [  # (violated clause / API rule, mutation)
     ("dup-fcm", "se-dup-ports"),
     ("dup-fcm", "gw-no-hosts"),
     ("dup-fcm", "gw-simple-no-cert"),
+    ("dup-fcm", "gw-https-no-tls"),
     ("api-valid:SocketAddress.PortValue:_value_must_be_less_than_or_equal_to_N", "se-port-range"),
     ("api-valid:SocketAddress.PortValue:_value_must_be_less_than_or_equal_to_N", "gw-port-range"),
     ("api-valid:SocketAddress.Address:_value_length_must_be_at_least_N_runes", "se-nil-endpoint"),
@@ -118,12 +133,18 @@ KNOWN_INVALID_PAIRS = [  # (violated clause / API rule, mutation)
     ("api-valid:HeaderValue.Key:_value_length_must_be_at_least_N_runes", "vs-bad-headers"),
     ("api-valid:HeaderMatcher.Name:_value_length_must_be_at_least_N_runes", "vs-empty-matchers"),
     ("api-valid:Cluster.ConnectTimeout:_value_must_be_greater_than_Ns", "dr-negative-pool"),
+    ("api-valid:OutlierDetection.Interval:_value_must_be_greater_than_Ns", "dr-negative-pool"),
+    ("api-valid:OutlierDetection.BaseEjectionTime:_value_must_be_greater_than_Ns", "dr-negative-pool"),
+    ("api-valid:OutlierDetection.MaxEjectionPercent:_value_must_be_less_than_or_equal_to_N", "dr-negative-pool"),
+    ("api-valid:WeightedCluster.Clusters:_value_must_contain_at_least_N_item_s_", "vs-http-no-action"),
+    ("api-valid:WeightedCluster.Clusters:_value_must_contain_at_least_N_item_s_", "vs-zero-weights"),
+    ("api-valid:FilterChainMatch.DestinationPort:_value_must_be_inside_range_[N_N]", "pa-port-range"),
     ("api-valid:Cluster_RingHashLbConfig.MinimumRingSize:_value_must_be_less_than_or_equal_to_N", "dr-empty-hash"),
     ("api-valid:RouteAction_HashPolicy_Header.HeaderName:_value_length_must_be_at_least_N_runes", "dr-empty-hash"),
 ]
 
-# Every known finding lives in /verif/known-findings.json (merged by the coordinator from notes/C14.known.json; a later
-# addition goes to notes/C14.known.delta.json). The tables above document the classes and drive the classifiers' texts only.
+# Every known finding lives in /verif/known-findings.json (merged by the coordinator from notes/C14.known.json and
+# notes/C14.known.delta.json; a later addition goes into a new delta). The tables above only document the classes.
 LOCAL_KNOWN = []
 
 
@@ -150,20 +171,46 @@ def write_lines(path, lines):
         f.write("\n".join(lines) + ("\n" if lines else ""))
 
 
-def verdict_class(impl_line):
-    """Mirror of verdictClass in harness/c14/main.go."""
-    v, _, info = impl_line.partition(" | ")
+def verdict_classes(impl_line):
+    """Mirror of verdictClasses in harness/c14/main.go: every kind of failure of one push line.
+    impl line = `<first verdict> | <info> || <v1> || <v2> ...`."""
+    head, _, rest = impl_line.partition(" || ")
+    v, _, info = head.partition(" | ")
     f = v.split()
     if not f or f[0] == "ok":
-        return ""
-    if f[0] == "bad":
-        if len(f) > 1 and f[1] == "api-valid":
+        return []
+    if f[0] in ("crash", "timeout"):
+        return [v]
+    out = []
+    for a in (rest.split(" || ") if rest else [v]):
+        g = a.split()
+        if len(g) < 2 or g[0] != "bad":
+            continue
+        if g[1] == "api-valid":
             for t in info.split():
                 if t.startswith("pgv="):
-                    return "bad api-valid " + t[4:].split(",")[0]
-        return "bad " + f[1] if len(f) > 1 else "bad"
-    if f[0] in ("crash", "timeout"):
+                    out += ["bad api-valid " + r for r in t[4:].split(",")]
+            continue
+        out.append("bad " + g[1])
+    return out
+
+
+def verdict_class(impl_line):
+    c = verdict_classes(impl_line)
+    return c[0] if c else ""
+
+
+def clause_verdict(impl_line, cls):
+    """The verdict string (`bad <clause> <detail...>`) of the clause of `cls` in an impl line, or the crash token."""
+    head, _, rest = impl_line.partition(" || ")
+    v = head.partition(" | ")[0]
+    if cls.startswith(("crash", "timeout")):
         return v
+    want = cls.split()[1]
+    for a in (rest.split(" || ") if rest else [v]):
+        g = a.split()
+        if len(g) > 1 and g[0] == "bad" and g[1] == want:
+            return a
     return ""
 
 
@@ -234,6 +281,10 @@ def exec_snapshot(ctx, ops_path, tag, retry=True):
                 if not any(verdict_class(l).startswith("crash process") for l in i2):
                     ctx.count("snapshot.process_died_but_case_passed_alone")
                     ctx.log("harness process died (rc=%s) in %s but the case passes alone; tail: %s" % (rc, c[0], log[-300:].replace("\n", " | ")))
+                    if re.search(r"^(panic: |fatal error: )", log, flags=re.M):
+                        ctx.tie_broken("nondeterministic-crash:process",
+                                       "the harness process died with a panic of the control plane, but the case passes when re-run alone",
+                                       {"stream": "snapshot", "ops": c, "log_tail": log[-1500:]})
                 start += 1
                 continue
             m = re.search(r"^(panic: .*|fatal error: .*)$", log, flags=re.M)
@@ -267,26 +318,23 @@ def run_monitor(ctx, snap_lines, tag):
     return ctx.read_lines(out), ""
 
 
-def shrink_case(ctx, case_lines, cls, tag):
-    """Minimise one failing case: in-process delta debugging by the harness (`shrink`), or - when the process
-    itself dies - line-level delta debugging from here."""
-    src = os.path.join(ctx.work, "snapshot.%s.shrink.in.ops" % tag)
-    dst = os.path.join(ctx.work, "snapshot.%s.shrink.out.ops" % tag)
-    write_lines(src, case_lines)
-    if not cls.startswith("crash process"):
-        if os.path.exists(dst):
-            os.remove(dst)
-        rc, log = harness(ctx, "shrink", "snapshot", src, dst, cls, timeout=900)
-        if rc == 0 and os.path.exists(dst):
-            return ctx.read_lines(dst)
-        return case_lines
+WORKERS = 4
+
+
+def deep_class(cls):
+    """Classes whose classifiers look INSIDE objects get sub-object shrinking (servers, hosts, ports, routes)."""
+    return cls in ("bad dup-fcm", "bad addr-unique") or cls.startswith("crash")
+
+
+def shrink_process_crash(ctx, case_lines, tag):
+    """The harness process itself dies: line-level delta debugging from here (each evaluation is a process)."""
     head, body = case_lines[0], list(case_lines[1:])
 
     def fails(lines):
         p = os.path.join(ctx.work, "snapshot.%s.pshrink.ops" % tag)
         write_lines(p, [head] + lines)
         impl, _ = exec_snapshot(ctx, p, tag + ".pshrink")
-        return any(verdict_class(l).startswith("crash process") for l in impl)
+        return any(c.startswith("crash process") for l in impl for c in verdict_classes(l))
 
     chunk = max(1, len(body) // 2)
     rounds = 0
@@ -307,95 +355,196 @@ def shrink_case(ctx, case_lines, cls, tag):
     return [head] + body
 
 
-def fingerprint(ctx, min_lines, cls, tag, verdict=""):
-    """Fingerprint of the minimal failing input class.
-    needs a rejected object:            snapshot:<class>:invalid-input      (the replay names the damaged objects)
+def shrink_jobs(ctx, jobs, tag):
+    """Minimise many failing (case, class) pairs: in-process delta debugging by the harness (`shrinkb`, WORKERS processes
+    in parallel): lines first, then - for the classes whose classifiers look inside objects - elements of the arrays
+    inside the remaining objects. Returns, per job, (lines, shrunk?). A job the batch could not shrink is retried alone once."""
+    from concurrent.futures import ThreadPoolExecutor
+    res = [None] * len(jobs)
+    normal = [k for k, (c, cls) in enumerate(jobs) if not cls.startswith("crash process")]
+    for k, (c, cls) in enumerate(jobs):
+        if cls.startswith("crash process"):
+            res[k] = (shrink_process_crash(ctx, c, tag), True)
+
+    def run_slice(w):
+        mine = normal[w::WORKERS]
+        if not mine:
+            return
+        src = os.path.join(ctx.work, "snapshot.%s.shrinkb%d.in.ops" % (tag, w))
+        dst = os.path.join(ctx.work, "snapshot.%s.shrinkb%d.out.ops" % (tag, w))
+        jf = os.path.join(ctx.work, "snapshot.%s.shrinkb%d.jobs" % (tag, w))
+        write_lines(src, [l for k in mine for l in jobs[k][0]])
+        write_lines(jf, ["%d %s" % (1 if deep_class(jobs[k][1]) else 0, jobs[k][1]) for k in mine])
+        for p in (dst, dst + ".status"):
+            if os.path.exists(p):
+                os.remove(p)
+        ctx.harness("shrinkb", "snapshot", src, dst, jf, timeout=3000)
+        out = split_cases(ctx.read_lines(dst)) if os.path.exists(dst) else []
+        st = ctx.read_lines(dst + ".status") if os.path.exists(dst + ".status") else []
+        for n, k in enumerate(mine):
+            if n < len(out) and n < len(st):
+                res[k] = (out[n], st[n] == "shrunk")
+
+    with ThreadPoolExecutor(WORKERS) as ex:
+        list(ex.map(run_slice, range(WORKERS)))
+    for k in normal:
+        if res[k] is None or not res[k][1]:
+            # alone, once more (the batch process may have died, or run out of time)
+            src = os.path.join(ctx.work, "snapshot.%s.shrink1.in.ops" % tag)
+            dst = os.path.join(ctx.work, "snapshot.%s.shrink1.out.ops" % tag)
+            write_lines(src, jobs[k][0])
+            if os.path.exists(dst):
+                os.remove(dst)
+            rc, log = ctx.harness("shrink", "snapshot", src, dst, jobs[k][1], timeout=900)
+            if rc == 0 and os.path.exists(dst):
+                res[k] = (ctx.read_lines(dst), True)
+            else:
+                ctx.count("snapshot.shrink_failed")
+                res[k] = (jobs[k][0], False)
+    return res
+
+
+def sanitize_class(cls):
+    c = cls.replace("bad ", "").replace(" ", ":")
+    return re.sub(r"[^A-Za-z0-9_.:\[\]@,=-]", "_", c)[:160]
+
+
+def fingerprint(min_lines, impl, cls, shrunk):
+    """Fingerprint of the minimal failing input class, decided on the SHRUNK mesh and its own verdict lines `impl`.
+    needs a rejected object:            snapshot:<class>:invalid-input:tag=<mutation>   (exactly one rejected object)
     all admitted, one deliberately
       damaged (validation has a gap):   snapshot:<class>:admitted:tag=<mutation tags>
     all admitted, all from the valid
-      generator:                        snapshot:<class>:admitted:<config kinds of the minimal mesh>
-    <class> = violated clause (+ the API's reason for api-valid) or `crash:<where>:<panic>@<function>`."""
-    p = os.path.join(ctx.work, "snapshot.%s.fp.ops" % tag)
-    write_lines(p, min_lines)
-    impl, _ = exec_snapshot(ctx, p, tag + ".fp")
-    if any(verdict_class(o).startswith("crash process") for o in impl):
-        # the process died: the per-object admission verdicts were lost; get them from a run without the pushes
-        q = os.path.join(ctx.work, "snapshot.%s.fpv.ops" % tag)
-        nopush = [l for l in min_lines if not l.startswith("push")]
-        write_lines(q, nopush)
-        vimpl, _ = exec_snapshot(ctx, q, tag + ".fpv", retry=False)
-        vmap = dict(zip(nopush, vimpl))
-        impl = [vmap.get(l, o) if not l.startswith("push") else o for l, o in zip(min_lines, impl)]
-    kinds, rtags, atags = set(), set(), set()
-    rejected = False
+      generator:                        snapshot:<class>:admitted:<defect class of a classifier | config kinds>
+    <class> = violated clause (+ the API's reason for api-valid) or `crash:<where>:<panic>@<function>`.
+    A case that could not be shrunk never gets a fingerprint that can be known (`...:unshrunk:...`)."""
+    kinds, rtags, atags = set(), [], set()
+    nrej = 0
+    verdict = ""
     for l, o in zip(min_lines, impl):
         f = l.split()
         if f[0] == "cfg":
             kinds.add(f[1])
             tags = [t[4:] for t in (f[7].split(",") if len(f) > 7 and f[7] != "-" else []) if t.startswith("tag:")]
             if o.startswith("rejected") or o.startswith("undecodable"):
-                rejected = True
-                rtags.update(tags)
+                nrej += 1
+                rtags += tags or ["untagged"]
             else:
                 atags.update(tags)
         elif f[0] == "kube":
             kinds.add("Kube")
-    c = cls.replace("bad ", "").replace(" ", ":")
-    c = re.sub(r"[^A-Za-z0-9_.:\[\]@,=-]", "_", c)[:160]
-    if rejected:
-        # the class names the damage: the mutation tag(s) of the rejected object(s) of the minimal mesh
-        return "snapshot:%s:invalid-input:tag=%s" % (c, "+".join(sorted(rtags)) or "untagged"), True, sorted(rtags | atags)
+        elif f[0] in ("push", "dpush") and not verdict and cls in verdict_classes(o):
+            verdict = clause_verdict(o, cls)
+            if f[0] == "dpush":
+                kinds.add("incremental-push")
+    c = sanitize_class(cls)
+    if not shrunk:
+        return "snapshot:%s:unshrunk:%s" % (c, "+".join(sorted(kinds)) or "Service"), nrej > 0, sorted(set(rtags) | atags)
+    # The defect classifiers decide first, on the structure that is left in the minimal mesh and on the verdict (sub-object
+    # shrinking may have removed the damage of a deliberately damaged object: its tag then says nothing). A defect of the
+    # generation code that a classifier recognizes is the same defect whether or not one of the objects is also rejected
+    # by validation; the fingerprint still says which of the two it was.
+    g = None
     if cls == "bad addr-unique":
         g = classify_reserved_port(min_lines, verdict)
-        if g:
-            return "snapshot:addr-unique:admitted:%s" % g, False, []
+    elif cls == "bad dup-fcm" and "Gateway" in kinds:
+        g = classify_gateway_merge(min_lines, verdict)
+    if g:
+        return "snapshot:%s:%s:%s" % (c, "invalid-input" if nrej else "admitted", g), nrej > 0, sorted(set(rtags))
+    if nrej:
+        # the class names the damage: the mutation tag of THE rejected object of the minimal mesh (several rejected
+        # objects, also with one tag, are listed with their multiplicity and are never known)
+        return "snapshot:%s:invalid-input:tag=%s" % (c, "+".join(sorted(rtags))), True, sorted(set(rtags) | atags)
+    # all objects are admitted and no classifier applies: a tag of an admitted damaged object names the class (a gap of validation)
     if atags:
         return "snapshot:%s:admitted:tag=%s" % (c, "+".join(sorted(atags))), False, sorted(atags)
-    if cls == "bad dup-fcm" and "Gateway" in kinds:
-        g = classify_gateway_merge(min_lines)
-        if g:
-            return "snapshot:dup-fcm:admitted:%s" % g, False, []
     return "snapshot:%s:admitted:%s" % (c, "+".join(sorted(kinds)) or "Service"), False, []
 
 
+HTTP_PROTOCOLS = ("HTTP", "HTTP2", "GRPC", "GRPC-WEB", "HTTP_PROXY")
+
+
 def classify_reserved_port(min_lines, verdict):
-    """A service (registry service or ServiceEntry) of the minimal mesh has a port equal to one of the sidecar's own
-    virtual listener ports, and the duplicated address is the wildcard address on that port."""
+    """Defect: conflictWithReservedListener does not guard a NON-HTTP port of a service WITHOUT address (the listener
+    ends up on the wildcard address) that equals one of the sidecar's own ports. Required: the duplicated address is
+    the wildcard address on 15001 / 15006 / 15008 / 15021 / 15090; the minimal mesh holds no Sidecar (an explicit bind
+    is guarded) and exactly the services needed; the service port with that number is non-HTTP and the service has no
+    address. An HTTP port there is guarded today: a duplicate from it is NOT this class."""
     from urllib.parse import unquote
-    m = re.search(r"bad addr-unique \S*?:(?:0\.0\.0\.0|%5B%3A%3A%5D|\[::\]):(15001|15006|15008)$", verdict.strip())
+    m = re.search(r"bad addr-unique \S*?:(?:0\.0\.0\.0|%5B%3A%3A%5D|\[::\]):(15001|15006|15008|15021|15090)$", verdict.strip())
     if not m:
         return None
     port = int(m.group(1))
+    hits = []  # (protocol, has address) of every service port with that number in the minimal mesh
     for l in min_lines:
         f = l.split()
-        if f[0] == "svc" and any(p.split("/")[1:2] == [str(port)] for p in unquote(f[4]).split(",")):
-            return "service-port-equals-sidecar-own-listener-port"
+        if f[0] == "cfg" and f[1] == "Sidecar":
+            return None
+        if f[0] == "svc":
+            for pd in unquote(f[4]).split(","):
+                q = pd.split("/")
+                if len(q) == 3 and q[1] == str(port):
+                    hits.append((q[2].upper(), not (f[5] == "headless" or unquote(f[3]) in ("0.0.0.0", "", "~"))))
         if f[0] == "cfg" and f[1] == "ServiceEntry":
             try:
                 spec = json.loads(unquote(f[6]))
             except ValueError:
-                continue
-            if any(p.get("number") == port for p in spec.get("ports", [])):
-                return "service-port-equals-sidecar-own-listener-port"
-    return None
+                return None
+            for p in spec.get("ports", []):
+                if p.get("number") == port:
+                    hits.append(((p.get("protocol") or "").upper(), bool(spec.get("addresses"))))
+    if len(hits) != 1:
+        return None
+    proto, has_address = hits[0]
+    if proto in HTTP_PROTOCOLS or has_address:
+        return None
+    return "non-http-port-of-addressless-service-equals-sidecar-own-port"
 
 
-def classify_gateway_merge(min_lines):
-    """Witness classes of the gateway server merge (mergeGateways) that yield two filter chains with one match.
-    Decided on the Gateway objects of the MINIMAL mesh; None = none of the known shapes (the violation then keeps
-    its generic fingerprint and fails the run)."""
+def host_matches(a, b):
+    """host.Name.Matches: equal, or one is a wildcard covering the other."""
+    if a == b or a == "*" or b == "*":
+        return True
+    if a.startswith("*") and not b.startswith("*"):
+        return b.endswith(a[1:])
+    if b.startswith("*") and not a.startswith("*"):
+        return a.endswith(b[1:])
+    if a.startswith("*") and b.startswith("*"):
+        return a.endswith(b[1:]) or b.endswith(a[1:])
+    return False
+
+
+def classify_gateway_merge(min_lines, verdict):
+    """Defect classes of the gateway server merge (mergeGateways) that yield two filter chains with one match, decided on
+    the SERVERS left in the minimal mesh (objects and servers are both shrunk), their merge ORDER (creation time, then
+    position) and the duplicated listener / match key of the verdict `bad dup-fcm <listener> <key>`.
+    None = none of the known defects: the violation keeps its generic fingerprint and fails the run."""
     from urllib.parse import unquote
+    vf = verdict.split()
+    if len(vf) < 4 or vf[:2] != ["bad", "dup-fcm"]:
+        return None
+    lname, key = unquote(vf[2]), ("" if vf[3] == "~" else unquote(vf[3]))
+    lbind, _, lport = lname.rpartition("_")
+    if not lport.isdigit():
+        return None
+    lport = int(lport)
     servers = []
+    has_vs = False
     for l in min_lines:
         f = l.split()
-        if f[0] != "cfg" or f[1] != "Gateway":
+        if f[0] != "cfg":
+            continue
+        if f[1] != "Gateway":
+            if f[1] not in ("VirtualService", "ServiceEntry"):
+                return None   # something else is needed for the failure: not a pure server-merge defect
+            has_vs = has_vs or f[1] == "VirtualService"
             continue
         ns = unquote(f[2]) if f[2] != "~" else ""
         try:
             spec = json.loads(unquote(f[6]))
         except ValueError:
-            continue
-        for srv in spec.get("servers", []):
+            return None
+        for idx, srv in enumerate(spec.get("servers", [])):
             port = srv.get("port") or {}
             hosts = []
             for h in srv.get("hosts", []):
@@ -408,9 +557,9 @@ def classify_gateway_merge(min_lines):
             tls = srv.get("tls")
             proto = (port.get("protocol") or "").upper()
             servers.append({"port": port.get("number"), "bind": srv.get("bind", ""), "hosts": hosts, "proto": proto,
-                            "tls": tls is not None and proto in ("HTTPS", "TLS"),
-                            "mode": (tls or {}).get("mode", "PASSTHROUGH" if tls is not None else ""),
-                            "http": proto in ("HTTP", "HTTP2", "GRPC", "GRPC-WEB", "HTTP_PROXY")})
+                            "tls": tls is not None,
+                            "mode": (tls or {}).get("mode", "PASSTHROUGH") if tls is not None else "",
+                            "http": proto in HTTP_PROTOCOLS, "order": (int(f[4]), ns + "/" + unquote(f[3]), idx)})
     # a server port is resolved through the gateway workload's Service: Service port -> target port of its endpoints
     svc_ports, target = {}, {}
     for l in min_lines:
@@ -428,31 +577,80 @@ def classify_gateway_merge(min_lines):
                 target[sp] = int(f[7])
     for srv in servers:
         srv["port"] = target.get(srv["port"], srv["port"])
-    pairs = [(a, b) for i, a in enumerate(servers) for b in servers[i + 1:] if a["port"] == b["port"]]
-    # istio#24638: TLS servers on one port and bind with a common SNI host under different namespace qualifiers
-    for a, b in pairs:
-        if a["tls"] and b["tls"] and a["bind"] == b["bind"]:
-            for (qa, ha) in a["hosts"]:
-                for (qb, hb) in b["hosts"]:
-                    if ha == hb and qa != qb:
-                        return "gateway-tls-servers-same-sni-different-namespace-qualifier"
-    for a, b in pairs:
-        if a["mode"] == "AUTO_PASSTHROUGH" and b["mode"] == "AUTO_PASSTHROUGH" and a["bind"] == b["bind"]:
+    servers.sort(key=lambda x: x["order"])
+    # every remaining server must sit on the duplicated listener's port (the shrinker removed the others)
+    if not servers or any(x["port"] != lport for x in servers):
+        return None
+    on_listener = [x for x in servers if (x["bind"] or "0.0.0.0") == (lbind or "0.0.0.0") or (x["bind"] == "" and lbind in ("0.0.0.0", "::", "[::]"))]
+
+    def sni_key(hs):
+        hs = sorted(set(hs))
+        return "" if "*" in hs else "sni=" + ",".join('"%s"' % h for h in hs)
+
+    if len(servers) == 2 and len(on_listener) == 2:
+        a, b = servers
+        ha, hb = [h for _, h in a["hosts"]], [h for _, h in b["hosts"]]
+        sa, sb = set(a["hosts"]), set(b["hosts"])
+        # istio#24638: two TLS-terminating servers, same bind, the same SNI host set, but NO namespaced host string in
+        # common (a common string is caught by CheckDuplicates today), and the duplicated key is that SNI set
+        if (a["tls"] and b["tls"] and a["mode"] not in ("PASSTHROUGH", "AUTO_PASSTHROUGH") and b["mode"] not in ("PASSTHROUGH", "AUTO_PASSTHROUGH")
+                and not (sa & sb) and sni_key(ha) == sni_key(hb) == key and (set(ha) & set(hb) or "*" in ha)):
+            return "gateway-tls-servers-same-sni-different-namespace-qualifier"
+        # two AUTO_PASSTHROUGH servers whose hosts overlap without being the same string: the SNI-DNAT chain of a
+        # service both cover is emitted twice
+        m = re.match(r'sni="outbound_\.\d+_\._\.([^"]+)"', key)
+        if (a["mode"] == "AUTO_PASSTHROUGH" and b["mode"] == "AUTO_PASSTHROUGH" and m and not (sa & sb)
+                and any(host_matches(x, m.group(1)) for x in ha) and any(host_matches(x, m.group(1)) for x in hb)
+                and any(host_matches(x, y) for x in ha for y in hb)):
             return "gateway-auto-passthrough-servers-overlapping-hosts"
-    for a, b in pairs:
-        if a["bind"] == b["bind"] and a["tls"] != b["tls"] and not (a["http"] or b["http"]):
-            return "gateway-tls-server-then-plaintext-tcp-server-on-one-port"
-    for a, b in pairs:
-        if a["bind"] == b["bind"] and a["http"] and b["http"] and not a["tls"] and not b["tls"]:
-            if any(c["port"] == a["port"] and c["bind"] != a["bind"] and not c["tls"] for c in servers):
-                return "gateway-plaintext-servers-one-port-other-bind-in-between"
+        # rule 3 (no TLS and plaintext on one port and bind) is enforced only when the plaintext server comes FIRST:
+        # TLS-terminating server with a wildcard host first, THEN a plaintext server (opaque TCP or HTTP); both chains
+        # have the empty match. (Plaintext first, then TLS, is rejected today: that order is NOT this class.)
+        # The TLS server's chain has the empty match when it terminates TLS for a wildcard host, or when it passes TLS
+        # through and a VirtualService tls route with sniHosts [*] is bound to it.
+        if a["tls"] and not b["tls"] and key == "" and a["mode"] != "AUTO_PASSTHROUGH" and (
+                (("*" in ha or not ha) and a["mode"] != "PASSTHROUGH") or (a["mode"] == "PASSTHROUGH" and has_vs)):
+            return "gateway-tls-server-then-plaintext-server-on-one-port"
+        return None
+    if len(servers) in (3, 4) and len(on_listener) == len(servers) - 1 and key == "":
+        # plainTextServers is kept per PORT only: a plaintext server `a` on bind X, then a plaintext server `b` on another
+        # bind Y (it overwrites the entry), then one or two servers on X that rule 1 / rule 3 should have merged with or
+        # rejected against `a` (a plaintext server: neither merged into `a`'s entry correctly nor rejected; a TLS server
+        # with a wildcard host: not rejected) - two chains with the empty match on X:port
+        a = on_listener[0]
+        b = [x for x in servers if x not in on_listener][0]
+
+        def later_ok(c):
+            ch = [h for _, h in c["hosts"]]
+            return c["order"] > b["order"] and (
+                not c["tls"] or (c["mode"] not in ("PASSTHROUGH", "AUTO_PASSTHROUGH") and ("*" in ch or not ch)) or (c["mode"] == "PASSTHROUGH" and has_vs))
+
+        if (not a["tls"] and not b["tls"] and a["order"] < b["order"] and all(later_ok(c) for c in on_listener[1:])
+                and all(c["bind"] == a["bind"] for c in on_listener)):
+            return "gateway-plaintext-server-entry-overwritten-by-server-on-other-bind"
     return None
 
 
 # ---------------------------------------------------------------------------------------------- stream snapshot
 
-def snapshot_file(ctx, ops_path, tag, budget):
-    """Run one ops file of the snapshot stream. Returns the number of pushes judged."""
+def class_rank(cls):
+    """Crashes first, then timeouts, then the clauses."""
+    return 0 if cls.startswith("crash") else 1 if cls.startswith("timeout") else 2
+
+
+def confirm_alone(ctx, clines, cls, tag):
+    """Re-run one case alone in a fresh process: does the class show again?"""
+    p = os.path.join(ctx.work, "snapshot.%s.confirm.ops" % tag)
+    write_lines(p, clines)
+    impl, _ = exec_snapshot(ctx, p, tag + ".confirm", retry=False)
+    return any(cls in verdict_classes(l) for l in impl)
+
+
+def snapshot_file(ctx, ops_path, tag):
+    """Run one ops file of the snapshot stream: every push of every case is judged, for every clause and every reason of
+    the API validation; every distinct failure class of a case is shrunk and classified (no budget before
+    classification - repeats of a known class cannot use up the examination of a new one).
+    Returns the number of pushes judged."""
     ops = ctx.read_lines(ops_path)
     impl, snap = exec_snapshot(ctx, ops_path, tag)
     if len(impl) != len(ops):
@@ -469,7 +667,8 @@ def snapshot_file(ctx, ops_path, tag, budget):
     for c in split_cases(ops):
         bounds.append((idx, idx + len(c)))
         idx += len(c)
-    per_class = {}
+    jobs = []      # (case lines, class)
+    jobinfo = []   # (push type, case kind, go verdict, lean verdict, case header)
     for (s, e) in bounds:
         st["cases"] += 1
         st["ops"] += e - s
@@ -477,21 +676,24 @@ def snapshot_file(ctx, ops_path, tag, budget):
         kind = clines[0].split()[3] if len(clines[0].split()) > 3 else "valid"
         ctx.count("snapshot.cases.%s" % kind)
         canon = []
-        failing = None
+        classes = {}   # class -> first push index showing it
         for i in range(s, e):
             op = ops[i].split()
             if op[0] == "cfg":
                 ctx.count("snapshot.objects.%s.%s" % (op[1], impl[i].split()[0]))
-            if op[0] != "push":
+            if op[0] not in ("push", "dpush"):
                 continue
             judged += 1
-            ctx.count("snapshot.pushes.%s" % op[1])
-            go_v = impl[i].partition(" | ")[0]
+            ctx.count("snapshot.%s.%s" % ("pushes" if op[0] == "push" else "incremental_pushes", op[1]))
+            head, _, allv = impl[i].partition(" || ")
+            go_first, _, info = head.partition(" | ")
+            go_v = allv or go_first
             lean_v = model[i]
-            info = impl[i].partition(" | ")[2]
             for t in info.split():
                 if t[:2] in ("L=", "R=", "C=", "E=") and t[2:].isdigit():
                     ctx.count("snapshot.resources.%s" % t[0], int(t[2:]))
+                if t.startswith("any-skipped=") and t[12:].isdigit():
+                    ctx.count("snapshot.any_values_of_unlinked_type_not_validated", int(t[12:]))
                 if t.startswith("unk="):
                     for part in t[4:].split(","):
                         k, _, ab = part.partition(":")
@@ -505,48 +707,90 @@ def snapshot_file(ctx, ops_path, tag, budget):
                 ctx.tie_broken("monitor-vs-go-restatement",
                                "the verified Lean monitor and the Go re-statement disagree on a real snapshot",
                                {"stream": "snapshot", "ops": clines, "push": ops[i], "go": go_v, "lean": lean_v})
-            cls = verdict_class(impl[i])
-            if lean_v.startswith("bad") and not cls:
-                cls = "bad " + lean_v.split()[1]
-            if cls:
-                ctx.count("snapshot.verdict.%s" % cls.split()[0 if cls.startswith("crash") else 1])
-                if failing is None:
-                    failing = (i, cls, go_v, lean_v)
+            cl = verdict_classes(impl[i])
+            if snap[i].startswith("snap") and lean_v.startswith("bad"):
+                for a in lean_v.split(" || "):
+                    g = a.split()
+                    if len(g) > 1 and g[1] != "api-valid" and ("bad " + g[1]) not in cl:
+                        cl.append("bad " + g[1])
+            if cl:
+                for c in cl:
+                    ctx.count("snapshot.verdict.%s" % c.split()[0 if c.startswith(("crash", "timeout")) else 1])
+                    classes.setdefault(c, i)
             else:
                 ctx.count("snapshot.verdict.ok")
-        nontrivial = any(l.startswith("push") for l in clines)
+        nontrivial = any(l.startswith(("push", "dpush")) for l in clines)
         sample = None
         if len(ctx.samples) < 3 and nontrivial:
             sample = {"stream": "snapshot", "ops": [l[:300] for l in clines[:4]] + ["... (%d lines)" % len(clines)],
-                      "implementation_output": [impl[i][:200] for i in range(s, e) if ops[i].startswith("push")][:4]}
+                      "implementation_output": [impl[i][:200] for i in range(s, e) if ops[i].startswith(("push", "dpush"))][:4]}
         ctx.note_case("snapshot\n" + "\n".join(canon), nontrivial, sample)
-        if failing is not None:
-            i, cls, go_v, lean_v = failing
-            case_tags = sorted({t[4:] for l in clines if l.startswith("cfg") for t in l.split()[7].split(",") if t.startswith("tag:")})
-            pre = (cls, ops[i].split()[1], kind, "+".join(case_tags))
-            per_class[pre] = per_class.get(pre, 0) + 1
-            if per_class[pre] > budget:
-                ctx.count("snapshot.unshrunk_repeats")
-                continue
-            small = shrink_case(ctx, clines, cls, tag)
-            fp, rejected, tags = fingerprint(ctx, small, cls, tag, go_v)
-            if rejected:
-                for t in tags:
-                    ctx.count("snapshot.invalid_input_finding.%s.%s" % (cls.split()[1] if cls.startswith("bad") else "crash", t))
-            what = ("real xDS generation yields a snapshot that violates '%s' for a %s proxy (%s)"
-                    % (cls, ops[i].split()[1],
-                       "only with an object admission validation rejects" if rejected else "all objects pass admission validation"))
-            ctx.violation(fp, what, {"stream": "snapshot", "ops": small, "verdict_go": go_v, "verdict_lean_monitor": lean_v,
-                                     "class": cls, "damage": tags, "original_case": clines[0], "source": tag}, True)
+        for cls in sorted(classes, key=lambda c: (class_rank(c), classes[c])):
+            i = classes[cls]
+            if cls.startswith("timeout") or (cls.startswith("crash") and not cls.startswith("crash process")):
+                # a wall-clock timeout / a crash is confirmed alone in a fresh process before it is reported
+                if not confirm_alone(ctx, clines, cls, tag):
+                    if cls.startswith("timeout"):
+                        ctx.count("snapshot.timeout_not_reproduced_alone")
+                        ctx.log("timeout in %s (%s) did not reproduce alone: not reported" % (clines[0], cls))
+                    else:
+                        ctx.tie_broken("nondeterministic-crash:" + sanitize_class(cls),
+                                       "generation crashed inside a run but not when the case was re-run alone",
+                                       {"stream": "snapshot", "ops": clines, "class": cls})
+                    continue
+            jobs.append((clines, cls))
+            jobinfo.append((ops[i].split()[1], kind, impl[i], model[i], clines[0]))
+    if not jobs:
+        return judged
+    ctx.count("snapshot.failure_classes_examined", len(jobs))
+    shrunk = shrink_jobs(ctx, jobs, tag)
+    # the verdicts of the shrunk meshes themselves (one run over all of them)
+    allmin = os.path.join(ctx.work, "snapshot.%s.min.ops" % tag)
+    write_lines(allmin, [l for (lines, _ok) in shrunk for l in lines])
+    mimpl, _ = exec_snapshot(ctx, allmin, tag + ".min")
+    pos = 0
+    for (clines, cls), (small, ok), (ptype, kind, go_line, lean_v, header) in zip(jobs, shrunk, jobinfo):
+        simpl = mimpl[pos:pos + len(small)]
+        pos += len(small)
+        if len(simpl) != len(small):
+            simpl = ["ok"] * len(small)
+            ok = False
+        if any(c.startswith("crash process") for o in simpl for c in verdict_classes(o)):
+            # the process died: the per-object admission verdicts were lost; get them from a run without the pushes
+            q = os.path.join(ctx.work, "snapshot.%s.fpv.ops" % tag)
+            nopush = [l for l in small if not l.startswith(("push", "dpush"))]
+            write_lines(q, nopush)
+            vimpl, _ = exec_snapshot(ctx, q, tag + ".fpv", retry=False)
+            vmap = dict(zip(nopush, vimpl))
+            simpl = [vmap.get(l, o) if not l.startswith(("push", "dpush")) else o for l, o in zip(small, simpl)]
+        elif ok and not any(cls in verdict_classes(o) for o in simpl):
+            ok = False   # the shrunk mesh does not show the class in a fresh process
+            ctx.count("snapshot.shrunk_mesh_not_reproduced")
+        fp, rejected, tags = fingerprint(small, simpl, cls, ok)
+        if rejected:
+            for t in tags:
+                ctx.count("snapshot.invalid_input_finding.%s.%s" % (cls.split()[1] if cls.startswith("bad") else "crash", t))
+        ctx.count("snapshot.fingerprint.%s" % fp.split(":")[1])
+        what = ("real xDS generation yields a snapshot that violates '%s' for a %s proxy (%s)"
+                % (cls, ptype, "only with an object admission validation rejects" if rejected else "all objects pass admission validation"))
+        ctx.violation(fp, what, {"stream": "snapshot", "ops": small, "verdict_go": clause_verdict(go_line, cls) or go_line.partition(" | ")[0],
+                                 "verdict_lean_monitor": lean_v, "class": cls, "damage": tags, "shrunk": ok,
+                                 "original_case": header, "source": tag}, True)
     return judged
 
 
 def run_snapshot(ctx):
     cdir = os.path.join(os.path.dirname(os.path.dirname(os.path.abspath(__file__))), "harness", "corpus", ctx.pid)
     if os.path.isdir(cdir):
+        # all corpus files as one ops file (one harness process instead of twenty)
+        lines = []
         for f in sorted(os.listdir(cdir)):
             if f.startswith("snapshot.") and f.endswith(".ops"):
-                snapshot_file(ctx, os.path.join(cdir, f), "corpus." + f[9:-4], budget=50)
+                lines += ctx.read_lines(os.path.join(cdir, f))
+        if lines:
+            p = os.path.join(ctx.work, "snapshot.corpus.ops")
+            write_lines(p, lines)
+            snapshot_file(ctx, p, "corpus")
     n = ctx.n(400, 6000)
     ops = os.path.join(ctx.work, "snapshot.gen.ops")
     if os.path.exists(ops):
@@ -555,11 +799,8 @@ def run_snapshot(ctx):
     if rc != 0 or not os.path.exists(ops):
         ctx.tie_broken("harness-gen:snapshot", out)
         return
-    judged = snapshot_file(ctx, ops, "gen", budget=ctx.n(2, 4))
+    judged = snapshot_file(ctx, ops, "gen")
     ctx.log("stream snapshot: %d meshes, %d real snapshots judged by the Lean monitor" % (n, judged))
-    # the property oracle as a second line (the harness' own verdict per case)
-    vout = ops + ".verdict"
-    # (the oracle is the Go re-statement already compared above; it is re-run only on a replay)
 
 
 def kernel_oracle(ctx, stream, case_lines, rep):
@@ -586,9 +827,11 @@ def kernel_oracle(ctx, stream, case_lines, rep):
 
 
 def run(ctx):
-    ctx.rule = ("snapshot: cases = random meshes (3-7 registry services with endpoints, 0-5 ServiceEntries, 0-2 Gateways, 0-2 DestinationRules, "
-                "0-4 VirtualServices, Sidecars, EnvoyFilters, PeerAuthentication; hosts/ports/VIPs drawn from small colliding pools; every third case "
-                "has 1-3 objects mutated past validation) x 3-6 proxies (sidecar / router / waypoint); one evaluation = one case; distinct = hash of the "
+    ctx.rule = ("snapshot: cases = random meshes (3-7 registry services with endpoints, 0-5 ServiceEntries, 0-3 Gateways, 0-2 DestinationRules, "
+                "0-4 VirtualServices, Sidecars, EnvoyFilters, PeerAuthentication, AuthorizationPolicy, RequestAuthentication, Telemetry, WasmPlugin, ProxyConfig; "
+                "hosts/ports/VIPs drawn from small colliding pools; every second case has EXACTLY ONE object damaged past validation by one mutation of a "
+                "catalogue of 86, the k-th such case forced to the k-th entry) x 3-6 proxies (sidecar / router / waypoint), each with a full push and some "
+                "with an incremental push merged into it; every push, every clause and every API validation reason is judged; one evaluation = one case; distinct = hash of the "
                 "abstract snapshots of its pushes; non-trivial = at least one push. kernel streams: random and adversarial inputs per kernel")
     ctx.assumptions = [
         "PARTIAL: that real generation always yields a WellFormed snapshot (or terminates) is EXPLORED on the generated meshes, not proved; "
@@ -644,7 +887,7 @@ def replay(ctx, path):
     p = os.path.join(ctx.work, "replay.ops")
     write_lines(p, ops)
     if stream == "snapshot":
-        snapshot_file(ctx, p, "replay", budget=50)
+        snapshot_file(ctx, p, "replay")
         return
     ok, impl, model, log = ctx.run_pair(stream, p, "replay")
     _, _, m = ctx.compare(stream, p, impl, model)
@@ -660,26 +903,29 @@ MANIFEST = {
     "level_text": ("PARTIAL. Lean 4 proof of (a) a snapshot monitor: `WellFormed` states the property over an abstract xDS snapshot (names unique per "
                    "type, no two listeners on one address, every RDS/EDS name that is referenced and requested is produced, virtual-host names and "
                    "case-insensitive domains unique per route configuration, filter-chain matches distinct per listener, weights in range, every "
-                   "resource valid for the API's own validation) and `wellFormedB` / `firstViolation` are proved sound AND complete for it "
-                   "(wellFormedB_iff, firstViolation_sound, firstViolation_first); (b) exact models of the conflict-resolution kernels with their "
+                   "resource valid for the API's own validation) and `wellFormedB` / `firstViolation` / `allViolations` are proved sound AND complete for it "
+                   "(wellFormedB_iff, firstViolation_sound, firstViolation_first, mem_allViolations_iff); (b) exact models of the conflict-resolution kernels with their "
                    "uniqueness theorems for ALL inputs: dedupeDomains (domains_unique_after_dedupe), normalizeClusters "
                    "(clusters_unique_after_normalize, normalize_first_wins), always-answer (requested_names_answered), the outbound listener conflict "
                    "rule (listener_conflict_total, one_entry_per_key, locked_frozen), the gateway TLS-host duplicate filter (accepted_hosts_unique), "
-                   "each linked to the monitor clause it establishes. NOT proved: that xDS generation as a whole always yields a WellFormed snapshot "
-                   "or terminates - that is explored: the verified monitor runs on real full pushes (real FakeDiscoveryServer, real CDS/EDS/LDS/RDS "
+                   "each linked to the monitor clause it establishes (the link theorems are conditional on 'the snapshot's list IS the kernel's output', which no run "
+                   "establishes for a full push). NOT proved: that xDS generation as a whole always yields a WellFormed snapshot "
+                   "or terminates - that is explored: the verified monitor runs on real full and incremental pushes (real FakeDiscoveryServer, real CDS/EDS/LDS/RDS "
                    "generators) of random meshes from colliding valid objects and from objects mutated past validation, for sidecar, router and "
                    "waypoint proxies, and must agree with an independent Go re-statement and accept."),
     "level_note": ("Weakest fit of the 20 properties: proof covers the monitor and five kernels, not generation (~100k lines); evidence separates proved "
-                   "obligations (theorems) from explored snapshots (coverage.proved_vs_explored, counters snapshot.*; ~1750 real snapshots per quick "
-                   "run, ~26000 thorough). Trusted: Lean kernel + {propext, Classical.choice, Quot.sound}; the hand-written kernel models (tied by "
+                   "obligations (theorems) from explored snapshots (coverage.proved_vs_explored, counters snapshot.*; ~2350 real snapshots per quick "
+                   "run, ~35000 thorough). Trusted: Lean kernel + {propext, Classical.choice, Quot.sound}; the hand-written kernel models (tied by "
                    "differential streams domains/clusters/answer/gwdup and the exhaustive 930-row table lconflict on the real functions); the "
                    "reduction of Envoy protos to the abstract snapshot (cross-checked on every snapshot by the Go re-statement on the protos); hooks "
                    "pilot/pkg/networking/core/zz_verif_c14.go, zz_verif_c12.go; Envoy's acceptance rules taken from the API comments (no Envoy "
                    "runs; dup-fcm is match equality, not Envoy's stronger overlap check); admission = schema ValidateConfig (CRD CEL rules not "
-                   "run); nil elements of repeated fields not generated; ambient cases toggle features.EnableAmbient* in-process. 15 defects found "
-                   "and fixed in /repo (9 with admitted objects); 1 admitted known finding (service port 15001/15006 vs the sidecar's virtual "
-                   "listeners) and the family 'invalid input reaches Envoy config unsanitised' are listed as known with per-clause fingerprints; "
-                   "every crash and every other clause still fails the run."),
+                   "run); nil elements of repeated fields not generated; ambient cases toggle features.EnableAmbient* in-process. 19 defects found "
+                   "and fixed in /repo (14 with admitted objects); 5 admitted known findings (a non-HTTP port of an address-less service on one of the "
+                   "sidecar's own ports; four gateway server-merge defects incl. istio#24638), each decided by a classifier on the shrunk mesh and the "
+                   "verdict (protocol, server order, binds, duplicated listener and match key), and the family 'invalid input reaches Envoy config "
+                   "unsanitised' as 28 explicit (rule, mutation) pairs are listed as known; every crash, every other clause, every other combination "
+                   "and everything that could not be shrunk still fails the run."),
     "technique": "Lean 4: verified snapshot monitor (sound+complete) run on real full pushes (T-mon) + exact kernel models with differential / exhaustive correspondence (T-diff)",
     "design_ref": "DESIGN.md section 5 C14",
 }
